@@ -287,6 +287,9 @@ SINGLE = [cell('single_pack', 'harness.h_direct', 'single_pack', (400, 1200),
 DIRECT_SHORT = [cell('direct_short', 'harness.h_direct', 'direct_short', (500, 1500),
                      bounds='add_streamed_objects_to_pack from a stream whose first read is short by a symbolic amount; sizes in [1,70000]; no_holes, no_holes_read_twice, pack target symbolic',
                      samples=[dict(s1=5, s2=66000, cut=4096, target=100, no_holes=True, read_twice=True), dict(s1=5, s2=9, cut=1, target=70000, no_holes=False, read_twice=False)])]
+REINIT = [cell('reinit_packid', 'harness.h_cfg', 'reinit_packid', (400, 1200),
+               bounds='two existing full packs (10 and 9 bytes, target 5), one direct-to-pack write (object in [1,1000]) that leaves 2 as the cached pack id, init_container(clear=True) on the same handle with a new target in [1,1000], two more direct-to-pack writes (objects in [1,1000]): packs numbered from zero and filled in order again',
+               samples=[dict(s0=5, s1=7, target2=6), dict(s0=5, s1=7, target2=30)])]
 INIT = [cell('init_refused', 'harness.h_cfg', 'init_refused', (300, 900), bounds='init_container on an initialised container (symbolic arguments) raises and changes nothing; init on an empty folder gives an empty valid container',
              samples=[dict(s0=5, clear=False, target=100, prefix=2)])]
 
@@ -504,7 +507,7 @@ CHECKS = {
                      'codec error), `compressed` flag flips, pack_id perturbations, doubly stored (loose + packed) objects'],
     ),
     'C13': dict(
-        cells=PACK_INV + DIRECT_INV + PACK_REACH + DIRECT_REACH + CPACK + CDIRECT + IMPORT_TARGET + PACKID,
+        cells=PACK_INV + DIRECT_INV + PACK_REACH + DIRECT_REACH + CPACK + CDIRECT + IMPORT_TARGET + PACKID + REINIT,
         functions=F_WRITE + F_COMP + ['Container.import_objects'],
         assumptions=['pre-state: one pack (possibly already above the target) with holes; symbolic pack_size_target so '
                      'that the pack switch falls anywhere in the batch; pack_all_loose with every compress mode, direct to '
